@@ -3,16 +3,26 @@
 //! (a) E1 full product: every string `did:m:` ‖ Σ^≤n (Σ = 16 symbols incl. `%`, delimiters, whitespace,
 //!     control, non-ASCII) through `CoreDID::{parse, from_str, try_from(&str|String|BaseDIDUrl), deserialize}`
 //!     and `DIDUrl::{parse, from_str, try_from(String), deserialize}`; oracle = hand-written recogniser of the
-//!     W3C DID / DID-URL ABNF (did-core §3.1, §3.2; RFC 3986 pchar/query/fragment).
-//! (b) the same tree (one level shallower) behind leading whitespace/control prefixes and behind perturbed
+//!     W3C DID / DID-URL ABNF (did-core §3.1, §3.2; RFC 3986 pchar/query/fragment). Every accepted value is
+//!     judged whichever entry point produced it; the entry points are not required to agree with one another.
+//! (a') character table: every ASCII character (+ non-ASCII letters, digits, spaces), alone and in pairs
+//!     (triples in thorough), in every position class of every component, for the parsers and for every
+//!     setter / join argument — a character class that grew or shrank by one character shows up here.
+//! (b) the same tree (shallower) behind leading whitespace/control prefixes and behind perturbed
 //!     scheme/method heads; (c) structured long identifiers × suffix table.
-//! (d) op table: every well-formed base value × {join, set_path, set_query, set_fragment} × segment
-//!     ({∅,/,?,#} ‖ Σ^≤k) and {set_method_name, set_method_id} × Σ^≤k.
-//! (e) Eq/Ord/Hash agreement on all pairs (and all triples) of a pool of accepted DID URLs.
+//! (d) op table: well-formed base values × {join, DID::join, set_path, set_query, set_fragment} × segment
+//!     ({∅,/,?,#} ‖ Σ^≤k, token sequences, character table) and {set_method_name, set_method_id} × Σ^≤k:
+//!     Ok ⇒ the result re-parses to itself, keeps the DID and shows the effect the doc comments give (components
+//!     that are not addressed stay, join clears what follows, leading delimiter rules); Err ⇒ value unchanged.
+//! (d') every sequence of ≤3/4 such operations from a menu, each step judged on the value the previous steps
+//!     produced (values that never went through the parser).
+//! (e) Eq/Ord/Hash agreement on all pairs (and all triples) of a pool of accepted DID URLs and of their
+//!     relative parts; the same values rebuilt along four public construction routes.
 //! (f) did:jwk: every single-character substitution/truncation of encoded JWK ids + suffix table.
+//! (g) liveness only where it is explicit: own string forms re-parse; documented examples are accepted.
 
 use identity_core::common::Url;
-use identity_did::{BaseDIDUrl, CoreDID, DIDJwk, DIDUrl, DID};
+use identity_did::{BaseDIDUrl, CoreDID, DIDJwk, DIDUrl, RelativeDIDUrl, DID};
 use serde::{Deserialize, Serialize};
 use std::cmp::Ordering;
 use std::collections::hash_map::DefaultHasher;
@@ -32,6 +42,8 @@ enum Op {
   SetFragment,
   SetMethodName,
   SetMethodId,
+  /// `DID::join` on the plain DID type
+  DidJoin,
 }
 
 #[derive(Serialize, Deserialize, Debug, Clone, PartialEq)]
@@ -40,6 +52,10 @@ enum Case {
   Parse { s: String },
   /// `base` (a well-formed DID URL / DID) parsed, then `op(arg)`; `arg == None` only for set_path/query/fragment
   Op { base: String, op: Op, arg: Option<String> },
+  /// `base` parsed, then every step in order; each step is judged against the value the previous ones produced
+  Seq { base: String, steps: Vec<(Op, Option<String>)> },
+  /// a DID / DID URL / relative reference that the public documentation of identity_did shows as valid
+  Doc { did: String, rel: String },
   Pair { a: String, b: String },
   Triple { a: String, b: String, c: String },
   /// one input string through `DIDJwk::parse` (+ serde) and `jwk()`
@@ -52,6 +68,8 @@ struct Local {
   outcomes: BTreeMap<String, u64>,
   distinct: Vec<u64>,
   evals: u64,
+  /// operations that returned Ok (only used to tell whether a sequence is a non-trivial case)
+  accepted_ops: u64,
 }
 impl Local {
   fn outcome(&mut self, l: impl Into<String>) {
@@ -298,6 +316,8 @@ fn judge_did(ctx: &Ctx, entry: &str, s: &str, d: &CoreDID, case: &Case) -> bool 
       d.clone().into_string(),
       <CoreDID as AsRef<str>>::as_ref(d).to_owned(),
       serde_json::to_value(d).ok(),
+      // `PartialEq<str>` / `PartialEq<&str>`: comparison with the string form
+      *d == *s && *d == s,
     )
   });
   match forms {
@@ -306,7 +326,7 @@ fn judge_did(ctx: &Ctx, entry: &str, s: &str, d: &CoreDID, case: &Case) -> bool 
       return false;
     }
     Ok(f) => {
-      if f.0 != s || f.1 != s || f.2 != s || f.3 != s || f.4 != s || f.5 != Some(json!(s)) {
+      if f.0 != s || f.1 != s || f.2 != s || f.3 != s || f.4 != s || f.5 != Some(json!(s)) || !f.6 {
         ctx.violation(&format!("{entry}|string-form-not-verbatim|well-formed-did"), &format!("input {s:?}, string forms {f:?}"), case);
         return false;
       }
@@ -336,7 +356,7 @@ fn judge_did(ctx: &Ctx, entry: &str, s: &str, d: &CoreDID, case: &Case) -> bool 
 }
 
 /// Judge one accepted DID URL obtained from input `s` through `entry`.
-fn judge_url(ctx: &Ctx, entry: &str, s: &str, u: &DIDUrl, case: &Case) -> bool {
+fn judge_url(ctx: &Ctx, entry: &str, s: &str, u: &DIDUrl, case: &Case, l: &mut Local) -> bool {
   let parts = match classify_url(s) {
     Ok(p) => p,
     Err(class) => {
@@ -402,7 +422,12 @@ fn judge_url(ctx: &Ctx, entry: &str, s: &str, u: &DIDUrl, case: &Case) -> bool {
     cat.push('#');
     cat.push_str(f);
   }
-  if cat != s || format!("did:{method}:{method_id}") != did || format!("{did}{rel}") != s || rel_empty != (rel.is_empty()) {
+  // `RelativeDIDUrl::is_empty` is documented as "all URL segments are empty": it must hold when the relative
+  // part prints as nothing, and when it holds no accessor may show a non-empty segment. (A value that keeps
+  // an empty query such as "?" may answer either way.)
+  let no_segment = path.as_deref().unwrap_or("").is_empty() && query.as_deref().unwrap_or("").is_empty() && fragment.as_deref().unwrap_or("").is_empty();
+  let is_empty_ok = (!rel.is_empty() || rel_empty) && (!rel_empty || no_segment);
+  if cat != s || format!("did:{method}:{method_id}") != did || format!("{did}{rel}") != s || !is_empty_ok {
     ctx.violation(
       &format!("{entry}|components-do-not-recompose"),
       &format!("input {s:?}: did {did:?} method {method:?} method_id {method_id:?} path {path:?} query {query:?} fragment {fragment:?} relative {rel:?}"),
@@ -413,7 +438,7 @@ fn judge_url(ctx: &Ctx, entry: &str, s: &str, u: &DIDUrl, case: &Case) -> bool {
   // each component in its ABNF class
   let bad = if classify_did(&did).is_err() {
     Some("did")
-  } else if path.as_deref().map(|p| !p.starts_with('/') || scan(p, c_path, "x").is_err()).unwrap_or(false) {
+  } else if path.as_deref().map(|p| (!p.is_empty() && !p.starts_with('/')) || scan(p, c_path, "x").is_err()).unwrap_or(false) {
     Some("path")
   } else if query.as_deref().map(|q| scan(q, c_query, "x").is_err()).unwrap_or(false) {
     Some("query")
@@ -426,12 +451,74 @@ fn judge_url(ctx: &Ctx, entry: &str, s: &str, u: &DIDUrl, case: &Case) -> bool {
     ctx.violation(&format!("{entry}|component-outside-abnf|{which}"), &format!("input {s:?}: did {did:?} path {path:?} query {query:?} fragment {fragment:?}"), case);
     return false;
   }
-  // conversions of a clean value must not unwind
-  if let Err(p) = guard(|| Url::from(u.clone())) {
-    ctx.violation(&format!("DIDUrl->Url|{}", pkey(&p)), &format!("input {s:?}: {}", p.msg), case);
-    return false;
+  // `Url::from(DIDUrl)` and `query_pairs` are executed, not judged: the statement says nothing about the
+  // `url` crate accepting every DID URL.
+  if guard(|| (Url::from(u.clone()), u.query_pairs().count())).is_err() {
+    l.outcome("note: Url::from(DIDUrl) / query_pairs unwinds on a clean DID URL (not judged)");
   }
   true
+}
+
+/// What is compared between two values of the plain DID type: every string form and every component.
+type FpDid = (String, String, String, String, String);
+fn fp_did(d: &CoreDID) -> Option<FpDid> {
+  guard(|| (d.as_str().to_owned(), d.to_string(), d.method().to_owned(), d.method_id().to_owned(), d.authority().to_owned())).ok()
+}
+type FpUrl = (String, String, String, String, Option<String>, Option<String>, Option<String>);
+fn fp_url(u: &DIDUrl) -> Option<FpUrl> {
+  guard(|| {
+    (
+      u.to_string(),
+      u.did().as_str().to_owned(),
+      u.did().method().to_owned(),
+      u.did().method_id().to_owned(),
+      u.path().map(str::to_owned),
+      u.query().map(str::to_owned),
+      u.fragment().map(str::to_owned),
+    )
+  })
+  .ok()
+}
+
+/// A further entry point for the same input (`FromStr`, `TryFrom`, serde). The statement speaks about every
+/// accepted value, not about the entry points agreeing: a value that is indistinguishable from the one `main`
+/// produced has been judged there (one defect, one key); any other accepted value is judged on its own under
+/// the entry point's name; a differing accept/reject decision is recorded, not judged.
+#[allow(clippy::too_many_arguments)]
+fn alt_entry<T, E, F: PartialEq>(
+  ctx: &Ctx,
+  name: &str,
+  s: &str,
+  r: &Result<Result<T, E>, Panicked>,
+  main: &Sig,
+  main_fp: Option<&F>,
+  fp: impl Fn(&T) -> Option<F>,
+  judge: impl FnOnce(&T, &mut Local),
+  case: &Case,
+  l: &mut Local,
+) {
+  match r {
+    Err(p) => {
+      let k = pkey(p);
+      if *main != Sig::Panic(k.clone()) {
+        ctx.violation(&format!("{name}|{k}"), &format!("input {s:?}: {}", p.msg), case);
+      }
+    }
+    Ok(Err(_)) => {
+      if matches!(main, Sig::Ok(_)) {
+        l.outcome(format!("note: {name} rejects an input that parse accepts (not judged)"));
+      }
+    }
+    Ok(Ok(v)) => {
+      let f = fp(v);
+      if !(f.is_some() && f.as_ref() == main_fp) {
+        if !matches!(main, Sig::Ok(_)) {
+          l.outcome(format!("note: {name} accepts an input that parse does not accept (judged on its own)"));
+        }
+        judge(v, l);
+      }
+    }
+  }
 }
 
 fn eval_parse(ctx: &Ctx, s: &str, l: &mut Local) {
@@ -443,7 +530,9 @@ fn eval_parse(ctx: &Ctx, s: &str, l: &mut Local) {
   if let Sig::Panic(k) = &sp {
     ctx.violation(&format!("CoreDID::parse|{k}"), &format!("input {s:?}: {}", r_parse.as_ref().err().map(|p| p.msg.as_str()).unwrap_or("string form panicked")), &case);
   }
+  let mut fp_parse: Option<FpDid> = None;
   if let Ok(Ok(d)) = &r_parse {
+    fp_parse = fp_did(d);
     if judge_did(ctx, "CoreDID::parse", s, d, &case) {
       // conversions of a clean DID
       let conv = guard(|| (d.to_url().to_string(), d.clone().into_url().to_string(), DIDUrl::from(d.clone()).to_string(), CoreDID::check_validity(&BaseDIDUrl::from(d.clone())).is_ok()));
@@ -454,24 +543,16 @@ fn eval_parse(ctx: &Ctx, s: &str, l: &mut Local) {
             ctx.violation("CoreDID::to_url|string-form-differs", &format!("input {s:?}: {a:?} {b:?} {c:?}"), &case);
           }
           if !valid {
-            // check_validity is the library's own predicate; it must not contradict an accepted clean DID
-            l.outcome("note:check_validity-rejects-clean-did");
+            // check_validity is the library's own predicate; recorded only
+            l.outcome("note: check_validity rejects a clean accepted DID (not judged)");
           }
         }
       }
     }
   }
-  // delegating entry points must decide like parse
-  let others: [(&str, Sig); 3] = [
-    ("CoreDID::from_str", sig_of(&guard(|| CoreDID::from_str(s)))),
-    ("CoreDID::try_from(&str)", sig_of(&guard(|| CoreDID::try_from(s)))),
-    ("CoreDID::try_from(String)", sig_of(&guard(|| CoreDID::try_from(s.to_owned())))),
-  ];
-  for (name, sig) in &others {
-    if !same_decision(sig, &sp) {
-      ctx.violation(&format!("{name}|differs-from-parse"), &format!("input {s:?}: parse {sp:?}, {name} {sig:?}"), &case);
-    }
-  }
+  alt_entry(ctx, "CoreDID::from_str", s, &guard(|| CoreDID::from_str(s)), &sp, fp_parse.as_ref(), fp_did, |d, _| { judge_did(ctx, "CoreDID::from_str", s, d, &case); }, &case, l);
+  alt_entry(ctx, "CoreDID::try_from(&str)", s, &guard(|| CoreDID::try_from(s)), &sp, fp_parse.as_ref(), fp_did, |d, _| { judge_did(ctx, "CoreDID::try_from(&str)", s, d, &case); }, &case, l);
+  alt_entry(ctx, "CoreDID::try_from(String)", s, &guard(|| CoreDID::try_from(s.to_owned())), &sp, fp_parse.as_ref(), fp_did, |d, _| { judge_did(ctx, "CoreDID::try_from(String)", s, d, &case); }, &case, l);
   // serde / TryFrom<BaseDIDUrl>: a separate code path, judged on its own
   let r_de = guard(|| serde_json::from_value::<CoreDID>(json!(s)));
   let sd = sig_serde(&r_de);
@@ -482,17 +563,20 @@ fn eval_parse(ctx: &Ctx, s: &str, l: &mut Local) {
     judge_did(ctx, "CoreDID::deserialize", s, d, &case);
   }
   // TryFrom<BaseDIDUrl>: the conversion from an already parsed third-party value (a panic or error of
-  // `BaseDIDUrl::parse` itself, called here by the harness, is not the library's). Where serde evidently took
-  // the same path (same decision, same string) the defect is one and is keyed as deserialize's.
+  // `BaseDIDUrl::parse` itself, called here by the harness, is not the library's). What the library is handed is
+  // that value, so the accepted DID is judged against the third-party value's own string (today the input,
+  // verbatim). Where serde evidently took the same path (same decision, same string) the defect is one and is
+  // keyed as deserialize's.
   if let Ok(Ok(base)) = guard(|| BaseDIDUrl::parse(s)) {
+    let given = guard(|| base.as_str().to_owned()).unwrap_or_else(|_| s.to_owned());
     let r_base = guard(|| CoreDID::try_from(base));
     let sb = sig_of(&r_base);
-    let entry = if same_decision(&sb, &sd) { "CoreDID::deserialize" } else { "CoreDID::try_from(BaseDIDUrl)" };
+    let entry = if given == s && same_decision(&sb, &sd) { "CoreDID::deserialize" } else { "CoreDID::try_from(BaseDIDUrl)" };
     if let Sig::Panic(k) = &sb {
       ctx.violation(&format!("{entry}|{k}"), &format!("input {s:?}"), &case);
     }
     if let Ok(Ok(d)) = &r_base {
-      judge_did(ctx, entry, s, d, &case);
+      judge_did(ctx, entry, &given, d, &case);
     }
   }
   // ---- DID URL type
@@ -501,20 +585,15 @@ fn eval_parse(ctx: &Ctx, s: &str, l: &mut Local) {
   if let Sig::Panic(k) = &su {
     ctx.violation(&format!("DIDUrl::parse|{k}"), &format!("input {s:?}: {}", r_url.as_ref().err().map(|p| p.msg.as_str()).unwrap_or("string form panicked")), &case);
   }
+  let mut fp_u: Option<FpUrl> = None;
   if let Ok(Ok(u)) = &r_url {
-    judge_url(ctx, "DIDUrl::parse", s, u, &case);
+    fp_u = fp_url(u);
+    judge_url(ctx, "DIDUrl::parse", s, u, &case, l);
   }
-  let others: [(&str, Sig); 3] = [
-    ("DIDUrl::from_str", sig_of(&guard(|| DIDUrl::from_str(s)))),
-    ("DIDUrl::try_from(String)", sig_of(&guard(|| DIDUrl::try_from(s.to_owned())))),
-    ("DIDUrl::deserialize", sig_serde(&guard(|| serde_json::from_value::<DIDUrl>(json!(s))))),
-  ];
-  for (name, sig) in &others {
-    if !same_decision(sig, &su) {
-      ctx.violation(&format!("{name}|differs-from-parse"), &format!("input {s:?}: parse {su:?}, {name} {sig:?}"), &case);
-    }
-  }
-  // ---- histogram (liveness is recorded, not judged)
+  alt_entry(ctx, "DIDUrl::from_str", s, &guard(|| DIDUrl::from_str(s)), &su, fp_u.as_ref(), fp_url, |u, l| { judge_url(ctx, "DIDUrl::from_str", s, u, &case, l); }, &case, l);
+  alt_entry(ctx, "DIDUrl::try_from(String)", s, &guard(|| DIDUrl::try_from(s.to_owned())), &su, fp_u.as_ref(), fp_url, |u, l| { judge_url(ctx, "DIDUrl::try_from(String)", s, u, &case, l); }, &case, l);
+  alt_entry(ctx, "DIDUrl::deserialize", s, &guard(|| serde_json::from_value::<DIDUrl>(json!(s))), &su, fp_u.as_ref(), fp_url, |u, l| { judge_url(ctx, "DIDUrl::deserialize", s, u, &case, l); }, &case, l);
+  // ---- histogram (liveness of parsing is recorded, not judged)
   let recog = match (classify_did(s), classify_url(s)) {
     (Ok(_), _) => "did",
     (Err(_), Ok(_)) => "did-url",
@@ -527,9 +606,23 @@ fn eval_parse(ctx: &Ctx, s: &str, l: &mut Local) {
   }
 }
 
+fn op_name(op: &Op) -> &'static str {
+  match op {
+    Op::Join => "DIDUrl::join",
+    Op::DidJoin => "DID::join",
+    Op::SetPath => "DIDUrl::set_path",
+    Op::SetQuery => "DIDUrl::set_query",
+    Op::SetFragment => "DIDUrl::set_fragment",
+    Op::SetMethodName => "CoreDID::set_method_name",
+    Op::SetMethodId => "CoreDID::set_method_id",
+  }
+}
+
 fn apply_url_op(u: &mut DIDUrl, op: &Op, arg: Option<&str>) -> Result<Option<DIDUrl>, identity_did::Error> {
   match op {
     Op::Join => u.join(arg.unwrap_or("")).map(Some),
+    // `DID::join` of the plain DID (the receiver of this step is `DIDUrl::from(did)`)
+    Op::DidJoin => u.did().clone().join(arg.unwrap_or("")).map(Some),
     Op::SetPath => u.set_path(arg).map(|_| None),
     Op::SetQuery => u.set_query(arg).map(|_| None),
     Op::SetFragment => u.set_fragment(arg).map(|_| None),
@@ -537,145 +630,317 @@ fn apply_url_op(u: &mut DIDUrl, op: &Op, arg: Option<&str>) -> Result<Option<DID
   }
 }
 
-fn eval_op(ctx: &Ctx, base: &str, op: &Op, arg: Option<&str>, l: &mut Local) {
-  l.evals += 1;
-  let case = Case::Op { base: base.to_owned(), op: op.clone(), arg: arg.map(str::to_owned) };
-  let is_did_op = matches!(op, Op::SetMethodName | Op::SetMethodId);
-  let name = match op {
-    Op::Join => "DIDUrl::join",
-    Op::SetPath => "DIDUrl::set_path",
-    Op::SetQuery => "DIDUrl::set_query",
-    Op::SetFragment => "DIDUrl::set_fragment",
-    Op::SetMethodName => "CoreDID::set_method_name",
-    Op::SetMethodId => "CoreDID::set_method_id",
+/// An absent component and an empty one are not distinguished by the documented-effect oracle.
+fn norm(o: Option<&str>) -> Option<String> {
+  o.filter(|s| !s.is_empty()).map(str::to_owned)
+}
+/// A relative reference split at its first '#' and, before that, its first '?': (path, query, fragment).
+fn split_rel(seg: &str) -> (&str, Option<&str>, Option<&str>) {
+  let (before, fragment) = match seg.find('#') {
+    Some(i) => (&seg[..i], Some(&seg[i + 1..])),
+    None => (seg, None),
   };
-  // The base must be a well-formed value accepted by the parser, otherwise the case judges nothing
-  // (ill-formed accepted values are reported by the Parse cases; judging ops on them would cascade).
-  let well_formed = if is_did_op { classify_did(base).is_ok() } else { classify_url(base).is_ok() };
-  if !well_formed {
-    l.outcome(format!("op {name}: base not well-formed (not judged)"));
-    return;
+  match before.find('?') {
+    Some(i) => (&before[..i], Some(&before[i + 1..]), fragment),
+    None => (before, None, fragment),
   }
-  if is_did_op {
-    let Ok(Ok(mut d)) = guard(|| CoreDID::parse(base)) else {
-      l.outcome(format!("op {name}: base rejected by parse (not judged)"));
-      return;
-    };
-    let before = d.clone();
-    let a = arg.unwrap_or("");
-    let r = guard(|| if *op == Op::SetMethodName { d.set_method_name(a) } else { d.set_method_id(a) });
-    match r {
-      Err(p) => ctx.violation(&format!("{name}|{}", pkey(&p)), &format!("{base:?}.{name}({a:?}): {}", p.msg), &case),
-      Ok(Err(_)) => {
-        if d != before || d.as_str() != before.as_str() {
-          ctx.violation(&format!("{name}|rejected|value-changed"), &format!("{base:?}.{name}({a:?}) returned Err and left {:?}", d.as_str()), &case);
-        }
-        l.outcome(format!("op {name}: rejected"));
-      }
-      Ok(Ok(())) => {
-        let out = d.as_str().to_owned();
-        match guard(|| CoreDID::parse(&out)) {
-          Err(p) => {
-            ctx.violation(&format!("CoreDID::parse|{}", pkey(&p)), &format!("string form {out:?} of the value produced by {base:?}.{name}({a:?}): {}", p.msg), &case);
-            l.outcome(format!("op {name}: accepted, reparse PANIC"));
-          }
-          Ok(Err(e)) => {
-            match classify_did(&out) {
-              Err(class) => ctx.violation(
-                &format!("{name}|accepted|{class}"),
-                &format!("{base:?}.{name}({a:?}) returned Ok; the value {out:?} is not a DID ({class}) and does not re-parse ({e})"),
-                &case,
-              ),
-              Ok(_) => ctx.violation(
-                &format!("CoreDID::parse|rejects-own-string-form|{}", own_form_class(&out)),
-                &format!("{base:?}.{name}({a:?}) returned Ok; the well-formed value {out:?} does not re-parse ({e})"),
-                &case,
-              ),
-            }
-            l.outcome(format!("op {name}: accepted, reparse rejected"));
-          }
-          Ok(Ok(back)) => {
-            let comps_ok = guard(|| (back.method() == d.method()) && (back.method_id() == d.method_id()) && back.as_str() == out).unwrap_or(false);
-            if back != d || !comps_ok || hash_of(&back) != hash_of(&d) || back.cmp(&d) != Ordering::Equal {
-              ctx.violation(&format!("{name}|accepted|reparses-to-different-value"), &format!("{base:?}.{name}({a:?}) -> {out:?}, re-parsed {:?}", back.as_str()), &case);
-            }
-            // the component that was set reads back as given
-            let got = guard(|| if *op == Op::SetMethodName { d.method().to_owned() } else { d.method_id().to_owned() });
-            if got.as_deref().ok() != Some(a) && classify_did(&out).is_ok() {
-              ctx.violation(&format!("{name}|accepted|component-reads-back-differently"), &format!("{base:?}.{name}({a:?}) -> {out:?}, accessor {got:?}"), &case);
-            }
-            l.outcome(format!("op {name}: accepted, reparses to itself"));
-          }
-        }
-        l.distinct(&(2u8, base, name, arg));
+}
+fn has_dot_segment(path: &str) -> bool {
+  path.split('/').any(|seg| seg == "." || seg == "..")
+}
+
+/// The effect the public documentation gives an accepted operation, on (path, query, fragment) of the receiver:
+/// `set_path` "the path must start with '/'", `set_query` / `set_fragment` "a leading '?' / '#' is ignored" (the
+/// doc examples read the component back), a setter touches its own component only; `join` "must begin with a
+/// valid delimiter character", "joining a path will overwrite the path and clear the query and fragment, joining
+/// a query will overwrite the query and clear the fragment, joining a fragment will only overwrite the fragment".
+/// `None` for the path = not judged (dot segments: the documentation does not say whether they are resolved).
+/// Second member: which components the operation addresses (the others must stay as they are).
+struct Effect {
+  path: Option<Option<String>>,
+  query: Option<String>,
+  fragment: Option<String>,
+  addressed: [bool; 3],
+}
+fn documented_effect(op: &Op, arg: Option<&str>, before: (&Option<String>, &Option<String>, &Option<String>)) -> Option<Effect> {
+  let (bp, bq, bf) = (norm(before.0.as_deref()), norm(before.1.as_deref()), norm(before.2.as_deref()));
+  Some(match op {
+    Op::SetPath => Effect { path: if has_dot_segment(arg.unwrap_or("")) { None } else { Some(norm(arg)) }, query: bq, fragment: bf, addressed: [true, false, false] },
+    Op::SetQuery => Effect { path: Some(bp), query: norm(arg.map(|a| a.strip_prefix('?').unwrap_or(a))), fragment: bf, addressed: [false, true, false] },
+    Op::SetFragment => Effect { path: Some(bp), query: bq, fragment: norm(arg.map(|a| a.strip_prefix('#').unwrap_or(a))), addressed: [false, false, true] },
+    Op::Join | Op::DidJoin => {
+      let seg = arg.unwrap_or("");
+      let (p, q, f) = split_rel(seg);
+      match seg.chars().next() {
+        Some('#') => Effect { path: Some(bp), query: bq, fragment: norm(Some(&seg[1..])), addressed: [false, false, true] },
+        Some('?') => Effect { path: Some(bp), query: norm(q), fragment: norm(f), addressed: [false, true, true] },
+        Some('/') => Effect { path: if has_dot_segment(p) { None } else { Some(norm(Some(p))) }, query: norm(q), fragment: norm(f), addressed: [true, true, true] },
+        _ => return None,
       }
     }
-    return;
-  }
-  let Ok(Ok(mut u)) = guard(|| DIDUrl::parse(base)) else {
-    l.outcome(format!("op {name}: base rejected by parse (not judged)"));
-    return;
-  };
+    _ => return None,
+  })
+}
+
+/// One `join` / `set_path` / `set_query` / `set_fragment` on the real value `u` (however it was obtained),
+/// judged: Ok ⇒ the result re-parses to itself, keeps the DID and shows the documented effect; Err ⇒ `u` is
+/// unchanged. `u` becomes the result. Returns false if the history cannot be continued.
+fn url_step(ctx: &Ctx, origin: &str, u: &mut DIDUrl, op: &Op, arg: Option<&str>, case: &Case, l: &mut Local) -> bool {
+  let label = op_name(op);
   let before = u.clone();
-  let before_s = before.to_string();
-  let r = guard(|| apply_url_op(&mut u, op, arg));
+  let Some(before_fp) = fp_url(&before) else {
+    l.outcome(format!("op {label}: receiver not readable (not judged)"));
+    return false;
+  };
+  let before_s = before_fp.0.clone();
+  let r = guard(|| apply_url_op(u, op, arg));
+  // `DID::join` is documented as `DIDUrl::join` on `DIDUrl::from(did)`: where it evidently is (same outcome), a
+  // defect is one defect and carries DIDUrl::join's key
+  let mut name = label;
+  if *op == Op::DidJoin {
+    let alt = guard(|| before.join(arg.unwrap_or("")));
+    let same = match (&r, &alt) {
+      (Err(p), Err(q)) => pkey(p) == pkey(q),
+      (Ok(Err(_)), Ok(Err(_))) => true,
+      (Ok(Ok(Some(v))), Ok(Ok(w))) => fp_url(v).is_some() && fp_url(v) == fp_url(w),
+      _ => false,
+    };
+    if same {
+      name = "DIDUrl::join";
+    }
+  }
+  let call = format!("{origin} = {before_s:?}, .{label}({arg:?})");
   match r {
-    Err(p) => ctx.violation(&format!("{name}|{}", pkey(&p)), &format!("{base:?}.{name}({arg:?}): {}", p.msg), &case),
+    Err(p) => {
+      ctx.violation(&format!("{name}|{}", pkey(&p)), &format!("{call}: {}", p.msg), case);
+      l.outcome(format!("op {label}: PANIC"));
+      false
+    }
     Ok(Err(_)) => {
-      if u != before || u.to_string() != before_s {
-        ctx.violation(&format!("{name}|rejected|value-changed"), &format!("{base:?}.{name}({arg:?}) returned Err and left {:?}", u.to_string()), &case);
+      if *u != before || before != *u || fp_url(u).as_ref() != Some(&before_fp) {
+        ctx.violation(&format!("{name}|rejected|value-changed"), &format!("{call} returned Err and left {:?}", guard(|| u.to_string()).ok()), case);
+        l.outcome(format!("op {label}: rejected"));
+        return false;
       }
-      l.outcome(format!("op {name}: rejected"));
+      l.outcome(format!("op {label}: rejected"));
+      true
     }
     Ok(Ok(joined)) => {
+      l.accepted_ops += 1;
       let v = joined.unwrap_or_else(|| u.clone());
-      if *op == Op::Join && (u != before || u.to_string() != before_s) {
-        ctx.violation("DIDUrl::join|receiver-changed", &format!("{base:?}.join({arg:?})"), &case);
+      if matches!(op, Op::Join | Op::DidJoin) && (*u != before || fp_url(u).as_ref() != Some(&before_fp)) {
+        ctx.violation(&format!("{name}|receiver-changed"), &call, case);
       }
       let out = match guard(|| v.to_string()) {
         Ok(o) => o,
-        Err(p) => return ctx.violation(&format!("{name}|string-form|{}", pkey(&p)), &p.msg, &case),
+        Err(p) => {
+          ctx.violation(&format!("{name}|string-form|{}", pkey(&p)), &p.msg, case);
+          return false;
+        }
       };
+      let mut go_on = true;
       match guard(|| DIDUrl::parse(&out)) {
         Err(p) => {
-          ctx.violation(&format!("DIDUrl::parse|{}", pkey(&p)), &format!("string form {out:?} of the value produced by {base:?}.{name}({arg:?}): {}", p.msg), &case);
-          l.outcome(format!("op {name}: accepted, reparse PANIC"));
+          ctx.violation(&format!("DIDUrl::parse|{}", pkey(&p)), &format!("string form {out:?} of the value produced by {call}: {}", p.msg), case);
+          l.outcome(format!("op {label}: accepted, reparse PANIC"));
+          go_on = false;
         }
         Ok(Err(e)) => {
           match classify_url(&out) {
-            Err(class) => ctx.violation(
-              &format!("{name}|accepted|{class}"),
-              &format!("{base:?}.{name}({arg:?}) returned Ok; the value {out:?} is not a DID URL ({class}) and does not re-parse ({e})"),
-              &case,
-            ),
-            Ok(_) => ctx.violation(
-              &format!("DIDUrl::parse|rejects-own-string-form|{}", own_form_class(&out)),
-              &format!("{base:?}.{name}({arg:?}) returned Ok; the well-formed value {out:?} does not re-parse ({e})"),
-              &case,
-            ),
+            Err(class) => ctx.violation(&format!("{name}|accepted|{class}"), &format!("{call} returned Ok; the value {out:?} is not a DID URL ({class}) and does not re-parse ({e})"), case),
+            Ok(_) => ctx.violation(&format!("DIDUrl::parse|rejects-own-string-form|{}", own_form_class(&out)), &format!("{call} returned Ok; the well-formed value {out:?} does not re-parse ({e})"), case),
           }
-          l.outcome(format!("op {name}: accepted, reparse rejected"));
+          l.outcome(format!("op {label}: accepted, reparse rejected"));
+          go_on = false;
         }
         Ok(Ok(back)) => {
           // a defect of parse on this (library-produced) string is parse's, reported under its key
-          if classify_url(&out).is_ok() && !judge_url(ctx, "DIDUrl::parse", &out, &back, &case) {
-            l.outcome(format!("op {name}: accepted, reparse defective"));
-            l.distinct(&(2u8, base, name, arg));
-            return;
+          if classify_url(&out).is_ok() && !judge_url(ctx, "DIDUrl::parse", &out, &back, case, l) {
+            l.outcome(format!("op {label}: accepted, reparse defective"));
+            return false;
           }
-          let same = back == v && v == back && back.to_string() == out && hash_of(&back) == hash_of(&v) && back.cmp(&v) == Ordering::Equal && back.path() == v.path() && back.query() == v.query() && back.fragment() == v.fragment();
+          let same = back == v && v == back && fp_url(&back) == fp_url(&v) && hash_of(&back) == hash_of(&v) && back.cmp(&v) == Ordering::Equal && v.cmp(&back) == Ordering::Equal && back.url() == v.url() && hash_of(back.url()) == hash_of(v.url()) && back.url().cmp(v.url()) == Ordering::Equal;
           if !same {
-            ctx.violation(&format!("{name}|accepted|reparses-to-different-value"), &format!("{base:?}.{name}({arg:?}) -> {out:?}, re-parsed {:?}", back.to_string()), &case);
+            ctx.violation(&format!("{name}|accepted|reparses-to-different-value"), &format!("{call} -> {out:?}, re-parsed {:?}", back.to_string()), case);
+            go_on = false;
           }
-          if v.did() != before.did() {
-            ctx.violation(&format!("{name}|accepted|did-part-changed"), &format!("{base:?}.{name}({arg:?}) -> {out:?}"), &case);
+          if v.did() != before.did() || v.did().as_str() != before.did().as_str() {
+            ctx.violation(&format!("{name}|accepted|did-part-changed"), &format!("{call} -> {out:?}"), case);
+            go_on = false;
           }
-          l.outcome(format!("op {name}: accepted, reparses to itself"));
+          l.outcome(format!("op {label}: accepted, reparses to itself"));
         }
       }
-      l.distinct(&(2u8, base, name, arg));
+      // the documented effect
+      let is_join = matches!(op, Op::Join | Op::DidJoin);
+      match documented_effect(op, arg, (&before_fp.4, &before_fp.5, &before_fp.6)) {
+        None => {
+          if is_join {
+            ctx.violation(&format!("{name}|accepted|segment-without-leading-delimiter"), &format!("{call} returned Ok ({out:?}); join must begin with '/', '?' or '#'"), case);
+            go_on = false;
+          }
+        }
+        Some(want) => {
+          if let Some(got) = fp_url(&v) {
+            let got = [norm(got.4.as_deref()), norm(got.5.as_deref()), norm(got.6.as_deref())];
+            let wanted = [want.path.clone(), Some(want.query.clone()), Some(want.fragment.clone())];
+            for i in 0..3 {
+              let Some(w) = &wanted[i] else { continue };
+              if *w != got[i] {
+                let which = ["path", "query", "fragment"][i];
+                // one defect, one key: a query that begins with '?' coming out without that character
+                let key = if i == 1 && w.as_deref().and_then(|w| w.strip_prefix('?')).map(|rest| norm(Some(rest))) == Some(got[1].clone()) {
+                  format!("{name}|accepted|query-loses-leading-question-mark")
+                } else if want.addressed[i] {
+                  format!("{name}|accepted|{which}-not-as-documented")
+                } else {
+                  format!("{name}|accepted|untouched-{which}-changed")
+                };
+                ctx.violation(&key, &format!("{call} -> {out:?}: {which} is {:?}, documented effect {:?}", got[i], w), case);
+                go_on = false;
+              }
+            }
+          }
+        }
+      }
+      *u = v;
+      go_on
     }
   }
+}
+
+/// One `set_method_name` / `set_method_id` on the real plain DID `d`, judged like `url_step`.
+fn did_step(ctx: &Ctx, origin: &str, d: &mut CoreDID, op: &Op, arg: Option<&str>, case: &Case, l: &mut Local) -> bool {
+  let name = op_name(op);
+  let before = d.clone();
+  let a = arg.unwrap_or("");
+  let call = format!("{origin} = {:?}, .{name}({a:?})", before.as_str());
+  let other_before = guard(|| if *op == Op::SetMethodName { before.method_id().to_owned() } else { before.method().to_owned() }).ok();
+  let r = guard(|| if *op == Op::SetMethodName { d.set_method_name(a) } else { d.set_method_id(a) });
+  match r {
+    Err(p) => {
+      ctx.violation(&format!("{name}|{}", pkey(&p)), &format!("{call}: {}", p.msg), case);
+      l.outcome(format!("op {name}: PANIC"));
+      false
+    }
+    Ok(Err(_)) => {
+      l.outcome(format!("op {name}: rejected"));
+      if *d != before || d.as_str() != before.as_str() || fp_did(d) != fp_did(&before) {
+        ctx.violation(&format!("{name}|rejected|value-changed"), &format!("{call} returned Err and left {:?}", d.as_str()), case);
+        return false;
+      }
+      true
+    }
+    Ok(Ok(())) => {
+      l.accepted_ops += 1;
+      let out = d.as_str().to_owned();
+      match guard(|| CoreDID::parse(&out)) {
+        Err(p) => {
+          ctx.violation(&format!("CoreDID::parse|{}", pkey(&p)), &format!("string form {out:?} of the value produced by {call}: {}", p.msg), case);
+          l.outcome(format!("op {name}: accepted, reparse PANIC"));
+          false
+        }
+        Ok(Err(e)) => {
+          match classify_did(&out) {
+            Err(class) => ctx.violation(&format!("{name}|accepted|{class}"), &format!("{call} returned Ok; the value {out:?} is not a DID ({class}) and does not re-parse ({e})"), case),
+            Ok(_) => ctx.violation(&format!("CoreDID::parse|rejects-own-string-form|{}", own_form_class(&out)), &format!("{call} returned Ok; the well-formed value {out:?} does not re-parse ({e})"), case),
+          }
+          l.outcome(format!("op {name}: accepted, reparse rejected"));
+          false
+        }
+        Ok(Ok(back)) => {
+          let mut go_on = true;
+          if back != *d || fp_did(&back) != fp_did(d) || fp_did(d).map(|f| f.0 != out || f.1 != out).unwrap_or(true) || hash_of(&back) != hash_of(d) || back.cmp(d) != Ordering::Equal {
+            ctx.violation(&format!("{name}|accepted|reparses-to-different-value"), &format!("{call} -> {out:?}, re-parsed {:?}", back.as_str()), case);
+            go_on = false;
+          }
+          // "Set the method name / method-specific-id of the DID": the component reads back as given and the
+          // other one stays (judged on well-formed results; an ill-formed accepted result is parse's defect)
+          if classify_did(&out).is_ok() {
+            let got = guard(|| if *op == Op::SetMethodName { (d.method().to_owned(), d.method_id().to_owned()) } else { (d.method_id().to_owned(), d.method().to_owned()) }).ok();
+            if got.as_ref().map(|g| g.0.as_str()) != Some(a) {
+              ctx.violation(&format!("{name}|accepted|component-reads-back-differently"), &format!("{call} -> {out:?}, accessors {got:?}"), case);
+              go_on = false;
+            } else if got.map(|g| g.1) != other_before {
+              ctx.violation(&format!("{name}|accepted|other-component-changed"), &format!("{call} -> {out:?}"), case);
+              go_on = false;
+            }
+          }
+          l.outcome(format!("op {name}: accepted, reparses to itself"));
+          go_on
+        }
+      }
+    }
+  }
+}
+
+enum Val {
+  Did(CoreDID),
+  Url(DIDUrl),
+}
+
+/// `base` parsed (as a plain DID if the first operation is one of the plain DID type, else as a DID URL), then
+/// every step applied to the value the previous steps produced, each step judged.
+fn eval_seq(ctx: &Ctx, base: &str, steps: &[(Op, Option<String>)], case: &Case, l: &mut Local) {
+  let Some((first, _)) = steps.first() else { return };
+  let starts_as_did = matches!(first, Op::SetMethodName | Op::SetMethodId | Op::DidJoin);
+  // The base must be a well-formed value accepted by the parser, otherwise the case judges nothing
+  // (ill-formed accepted values are reported by the Parse cases; judging ops on them would cascade).
+  let well_formed = if starts_as_did { classify_did(base).is_ok() } else { classify_url(base).is_ok() };
+  if !well_formed {
+    l.evals += 1;
+    l.outcome(format!("op {}: base not well-formed (not judged)", op_name(first)));
+    return;
+  }
+  let parsed = if starts_as_did { guard(|| CoreDID::parse(base).map(Val::Did)) } else { guard(|| DIDUrl::parse(base).map(Val::Url)) };
+  let Ok(Ok(mut val)) = parsed else {
+    l.evals += 1;
+    l.outcome(format!("op {}: base rejected by parse (not judged)", op_name(first)));
+    return;
+  };
+  let accepted_before = l.accepted_ops;
+  let mut origin = String::from("parse(base)");
+  for (i, (op, arg)) in steps.iter().enumerate() {
+    l.evals += 1;
+    let arg = arg.as_deref();
+    let (next, go_on) = match (val, op) {
+      (Val::Did(mut d), Op::SetMethodName | Op::SetMethodId) => {
+        let c = did_step(ctx, &origin, &mut d, op, arg, case, l);
+        (Val::Did(d), c)
+      }
+      (Val::Did(d), Op::DidJoin) => match guard(|| DIDUrl::from(d.clone())) {
+        Ok(mut u) => {
+          let c = url_step(ctx, &origin, &mut u, op, arg, case, l);
+          (Val::Url(u), c)
+        }
+        Err(p) => {
+          ctx.violation(&format!("CoreDID::to_url|{}", pkey(&p)), &p.msg, case);
+          (Val::Did(d), false)
+        }
+      },
+      (Val::Url(mut u), Op::Join | Op::SetPath | Op::SetQuery | Op::SetFragment) => {
+        let c = url_step(ctx, &origin, &mut u, op, arg, case, l);
+        (Val::Url(u), c)
+      }
+      (v, _) => {
+        l.outcome("op: not applicable to the value at this point of the sequence (not judged)");
+        (v, false)
+      }
+    };
+    val = next;
+    if !go_on {
+      break;
+    }
+    origin = format!("value after step {}", i + 1);
+  }
+  if l.accepted_ops != accepted_before {
+    l.distinct(&(2u8, base, format!("{steps:?}")));
+  }
+}
+
+fn eval_op(ctx: &Ctx, base: &str, op: &Op, arg: Option<&str>, l: &mut Local) {
+  let case = Case::Op { base: base.to_owned(), op: op.clone(), arg: arg.map(str::to_owned) };
+  eval_seq(ctx, base, &[(op.clone(), arg.map(str::to_owned))], &case, l);
 }
 
 /// Relations between two values: (eq, cmp, partial_cmp consistent, hashes equal)
@@ -703,6 +968,12 @@ fn eval_pair(ctx: &Ctx, a: &DIDUrl, b: &DIDUrl, case: impl Fn() -> Case, l: &mut
   if eq != (a.to_string() == b.to_string()) {
     ctx.violation("DIDUrl::eq|disagrees-with-string-form", &format!("{a} vs {b}: eq {eq}"), &case());
   }
+  // the relative parts on their own (hand-written Eq / Ord / Hash of RelativeDIDUrl; DIDUrl's Hash does not use it)
+  let (ra, rb) = (a.url(), b.url());
+  let (req, rab, rba) = (ra == rb, ra.cmp(rb), rb.cmp(ra));
+  if req != (rb == ra) || req != (rab == Ordering::Equal) || rab != rba.reverse() || ra.partial_cmp(rb) != Some(rab) || (req && hash_of(ra) != hash_of(rb)) || req != (ra.to_string() == rb.to_string()) {
+    ctx.violation("RelativeDIDUrl::eq/cmp/hash|disagree", &format!("{ra} vs {rb}: eq {req}, cmp {rab:?} / {rba:?}, hashes equal {}", hash_of(ra) == hash_of(rb)), &case());
+  }
   l.outcome(match (eq, ab) {
     (true, _) => "pair: equal",
     (false, Ordering::Less) => "pair: less",
@@ -711,26 +982,73 @@ fn eval_pair(ctx: &Ctx, a: &DIDUrl, b: &DIDUrl, case: impl Fn() -> Case, l: &mut
   ab
 }
 
-/// The well-formed DID URL `s` rebuilt from its bare DID with the three setters equals the parsed value.
+/// The well-formed DID URL `s` rebuilt from its parts along several public routes equals the parsed value:
+/// (1) bare DID parsed as a DID URL + the three setters; (2) a standalone `RelativeDIDUrl` filled in the reverse
+/// order + `DIDUrl::new`; (3) another DID URL + `set_url` + `map` / `try_map` replacing the DID.
+/// Components are handed over with their delimiter (documented: "a leading '?' / '#' is ignored").
 fn eval_built(ctx: &Ctx, s: &str, parsed: &DIDUrl) {
   let case = Case::Pair { a: s.to_owned(), b: s.to_owned() };
   let Ok(p) = classify_url(s) else { return };
-  let built = guard(|| -> Result<DIDUrl, identity_did::Error> {
-    let mut u = DIDUrl::parse(format!("did:{}:{}", p.method, p.msid))?;
-    u.set_path(Some(p.path))?;
-    u.set_query(p.query)?;
-    u.set_fragment(p.fragment)?;
-    Ok(u)
-  });
-  match built {
-    Ok(Ok(u)) => {
-      if u != *parsed || u.cmp(parsed) != Ordering::Equal || hash_of(&u) != hash_of(parsed) || u.to_string() != s {
-        ctx.violation("DIDUrl::set_*|built-value-differs-from-parsed-value", &format!("{s:?}: built {:?}", u.to_string()), &case);
+  let did_s = format!("did:{}:{}", p.method, p.msid);
+  let q = p.query.map(|q| format!("?{q}"));
+  let f = p.fragment.map(|f| format!("#{f}"));
+  type R = Result<DIDUrl, identity_did::Error>;
+  let routes: [(&str, Box<dyn Fn() -> R + '_>); 4] = [
+    (
+      "parse(did).set_path.set_query.set_fragment",
+      Box::new(|| {
+        let mut u = DIDUrl::parse(&did_s)?;
+        u.set_path(Some(p.path))?;
+        u.set_query(q.as_deref())?;
+        u.set_fragment(f.as_deref())?;
+        Ok(u)
+      }),
+    ),
+    (
+      "DIDUrl::new(did, RelativeDIDUrl set_fragment.set_query.set_path)",
+      Box::new(|| {
+        let mut r = RelativeDIDUrl::new();
+        r.set_fragment(f.as_deref())?;
+        r.set_query(q.as_deref())?;
+        r.set_path(Some(p.path))?;
+        Ok(DIDUrl::new(CoreDID::parse(&did_s)?, Some(r)))
+      }),
+    ),
+    (
+      "other.set_url(relative).map(did)",
+      Box::new(|| {
+        let mut r = RelativeDIDUrl::default();
+        r.set_query(q.as_deref())?;
+        r.set_path(Some(p.path))?;
+        r.set_fragment(f.as_deref())?;
+        let mut u = DIDUrl::parse("did:zz:other/x?y#z")?;
+        u.set_url(r);
+        let d = CoreDID::parse(&did_s)?;
+        Ok(u.map(|_| d))
+      }),
+    ),
+    (
+      "from(did).try_map + set_url(parsed.url())",
+      Box::new(|| {
+        let d = CoreDID::parse(&did_s)?;
+        let mut u = DIDUrl::from(CoreDID::parse("did:zz:other")?).try_map(|_| Ok::<_, identity_did::Error>(d))?;
+        u.set_url(parsed.url().clone());
+        Ok(u)
+      }),
+    ),
+  ];
+  for (route, build) in &routes {
+    match guard(build) {
+      Ok(Ok(u)) => {
+        let same = u == *parsed && *parsed == u && u.cmp(parsed) == Ordering::Equal && parsed.cmp(&u) == Ordering::Equal && hash_of(&u) == hash_of(parsed) && u.to_string() == s && u.url() == parsed.url() && hash_of(u.url()) == hash_of(parsed.url()) && u.url().cmp(parsed.url()) == Ordering::Equal && fp_url(&u) == fp_url(parsed);
+        if !same {
+          ctx.violation("DIDUrl::set_*|built-value-differs-from-parsed-value", &format!("{s:?}: built by {route}: {:?}", u.to_string()), &case);
+        }
       }
+      // a setter refusing a component that parse accepted (or the reverse) is recorded by the op table
+      Ok(Err(_)) => {}
+      Err(pn) => ctx.violation(&format!("DIDUrl::set_*|{}", pkey(&pn)), &format!("{s:?} ({route}): {}", pn.msg), &case),
     }
-    // a setter refusing a component that parse accepted (or the reverse) is recorded by the op table
-    Ok(Err(_)) => {}
-    Err(pn) => ctx.violation(&format!("DIDUrl::set_*|{}", pkey(&pn)), &format!("{s:?}: {}", pn.msg), &case),
   }
 }
 
@@ -778,20 +1096,60 @@ fn b64url_encode(data: &[u8]) -> String {
   out
 }
 
+/// JWK members whose value `jwk()` must report exactly as the id encodes them (RFC 7517 §4, RFC 7518 §6);
+/// members outside this list (in the id or in the returned key) are not judged.
+const JWK_MEMBERS: [&str; 22] = ["kty", "use", "key_ops", "alg", "kid", "x5u", "x5c", "x5t", "x5t#S256", "crv", "x", "y", "d", "n", "e", "p", "q", "dp", "dq", "qi", "oth", "k"];
+
+/// Judge one accepted `DIDJwk`; `did_entry` keys the DID-level clauses, `entry` the did:jwk-level ones.
+fn judge_jwk(ctx: &Ctx, did_entry: &str, entry: &str, s: &str, j: &DIDJwk, case: &Case, l: &mut Local) {
+  let core: &CoreDID = j.as_ref();
+  if !judge_did(ctx, did_entry, s, core, case) {
+    // still exercise jwk(): it must not unwind on any accepted value
+    if let Err(p) = guard(|| j.jwk()) {
+      ctx.violation(&format!("DIDJwk::jwk|{}", pkey(&p)), &format!("input {s:?}: {}", p.msg), case);
+    }
+    l.outcome("jwk: accepted, not a well-formed DID");
+    return;
+  }
+  if guard(|| j.to_string() != s || String::from(j.clone()) != s || serde_json::to_value(j).ok() != Some(json!(s)) || j.as_str() != s || CoreDID::from(j.clone()).as_str() != s).unwrap_or(true) {
+    ctx.violation(&format!("{entry}|string-form-not-verbatim"), &format!("input {s:?} -> {:?}", guard(|| j.to_string()).ok()), case);
+  }
+  if j.method() != "jwk" {
+    ctx.violation(&format!("{entry}|accepted|method-not-jwk"), &format!("input {s:?}"), case);
+  }
+  let msid = s.strip_prefix("did:jwk:").unwrap_or("");
+  let want: Option<serde_json::Value> = b64url_decode(msid).and_then(|b| serde_json::from_slice(&b).ok());
+  let Some(serde_json::Value::Object(want)) = want else {
+    ctx.violation(&format!("{entry}|accepted|method-id-not-base64url-json-object"), &format!("input {s:?}"), case);
+    l.outcome("jwk: accepted, id not b64url JSON");
+    return;
+  };
+  match guard(|| j.jwk()) {
+    Err(p) => ctx.violation(&format!("DIDJwk::jwk|{}", pkey(&p)), &format!("input {s:?}: {}", p.msg), case),
+    Ok(jwk) => {
+      let got = serde_json::to_value(&jwk).unwrap_or(json!(null));
+      let ok = got.as_object().map(|g| JWK_MEMBERS.iter().all(|m| g.get(*m) == want.get(*m))).unwrap_or(false);
+      if !ok {
+        ctx.violation("DIDJwk::jwk|differs-from-encoded-json", &format!("input {s:?}: jwk() = {got}, id encodes {}", serde_json::Value::Object(want.clone())), case);
+      }
+    }
+  }
+  l.outcome("jwk: accepted, jwk() returned the encoded key");
+}
+
 fn eval_jwk(ctx: &Ctx, s: &str, l: &mut Local) {
   l.evals += 1;
   let case = Case::Jwk { s: s.to_owned() };
   let r = guard(|| DIDJwk::parse(s));
   let sig = sig_of(&r);
-  let others: [(&str, Sig); 3] = [
-    ("DIDJwk::from_str", sig_of(&guard(|| DIDJwk::from_str(s)))),
-    ("DIDJwk::try_from(&str)", sig_of(&guard(|| DIDJwk::try_from(s)))),
-    ("DIDJwk::deserialize", sig_serde(&guard(|| serde_json::from_value::<DIDJwk>(json!(s))))),
-  ];
-  for (name, o) in &others {
-    if !same_decision(o, &sig) {
-      ctx.violation(&format!("{name}|differs-from-parse"), &format!("input {s:?}: parse {sig:?}, {name} {o:?}"), &case);
-    }
+  let fp_j = |j: &DIDJwk| fp_did(j.as_ref());
+  let main_fp = r.as_ref().ok().and_then(|r| r.as_ref().ok()).and_then(fp_j);
+  alt_entry(ctx, "DIDJwk::from_str", s, &guard(|| DIDJwk::from_str(s)), &sig, main_fp.as_ref(), fp_j, |j, l| judge_jwk(ctx, "DIDJwk::from_str", "DIDJwk::from_str", s, j, &case, l), &case, l);
+  alt_entry(ctx, "DIDJwk::try_from(&str)", s, &guard(|| DIDJwk::try_from(s)), &sig, main_fp.as_ref(), fp_j, |j, l| judge_jwk(ctx, "DIDJwk::try_from(&str)", "DIDJwk::try_from(&str)", s, j, &case, l), &case, l);
+  alt_entry(ctx, "DIDJwk::deserialize", s, &guard(|| serde_json::from_value::<DIDJwk>(json!(s))), &sig, main_fp.as_ref(), fp_j, |j, l| judge_jwk(ctx, "DIDJwk::deserialize", "DIDJwk::deserialize", s, j, &case, l), &case, l);
+  // TryFrom<CoreDID>: the conversion of an already parsed plain DID
+  if let Ok(Ok(core)) = guard(|| CoreDID::parse(s)) {
+    alt_entry(ctx, "DIDJwk::try_from(CoreDID)", s, &guard(|| DIDJwk::try_from(core)), &sig, main_fp.as_ref(), fp_j, |j, l| judge_jwk(ctx, "DIDJwk::try_from(CoreDID)", "DIDJwk::try_from(CoreDID)", s, j, &case, l), &case, l);
   }
   match r {
     Err(p) => {
@@ -809,41 +1167,49 @@ fn eval_jwk(ctx: &Ctx, s: &str, l: &mut Local) {
     Ok(Ok(j)) => {
       l.distinct(&(5u8, s));
       // the DID-level clauses are those of CoreDID::parse (DIDJwk::parse delegates to it)
-      let core: &CoreDID = j.as_ref();
-      if !judge_did(ctx, "CoreDID::parse", s, core, &case) {
-        // still exercise jwk(): it must not unwind on any accepted value
-        if let Err(p) = guard(|| j.jwk()) {
-          ctx.violation(&format!("DIDJwk::jwk|{}", pkey(&p)), &format!("input {s:?}: {}", p.msg), &case);
-        }
-        l.outcome("jwk: accepted, not a well-formed DID");
-        return;
-      }
-      if j.to_string() != s || String::from(j.clone()) != s || serde_json::to_value(&j).ok() != Some(json!(s)) {
-        ctx.violation("DIDJwk::parse|string-form-not-verbatim", &format!("input {s:?} -> {:?}", j.to_string()), &case);
-      }
-      if j.method() != "jwk" {
-        ctx.violation("DIDJwk::parse|accepted|method-not-jwk", &format!("input {s:?}"), &case);
-      }
-      let msid = s.strip_prefix("did:jwk:").unwrap_or("");
-      let want: Option<serde_json::Value> = b64url_decode(msid).and_then(|b| serde_json::from_slice(&b).ok());
-      let Some(serde_json::Value::Object(want)) = want else {
-        ctx.violation("DIDJwk::parse|accepted|method-id-not-base64url-json-object", &format!("input {s:?}"), &case);
-        l.outcome("jwk: accepted, id not b64url JSON");
-        return;
-      };
-      match guard(|| j.jwk()) {
-        Err(p) => ctx.violation(&format!("DIDJwk::jwk|{}", pkey(&p)), &format!("input {s:?}: {}", p.msg), &case),
-        Ok(jwk) => {
-          let got = serde_json::to_value(&jwk).unwrap_or(json!(null));
-          let ok = got.as_object().map(|g| !g.is_empty() && g.iter().all(|(k, v)| want.get(k) == Some(v))).unwrap_or(false);
-          if !ok {
-            ctx.violation("DIDJwk::jwk|differs-from-encoded-json", &format!("input {s:?}: jwk() = {got}, id encodes {}", serde_json::Value::Object(want.clone())), &case);
-          }
-        }
-      }
-      l.outcome("jwk: accepted, jwk() returned the encoded key");
+      judge_jwk(ctx, "CoreDID::parse", "DIDJwk::parse", s, &j, &case, l);
     }
   }
+}
+
+/// Liveness on the one family that is pinned down explicitly: strings the public documentation of identity_did
+/// itself shows as valid DIDs / DID URLs / relative references / setter arguments must be accepted.
+fn eval_doc(ctx: &Ctx, did: &str, rel: &str, case: &Case, l: &mut Local) {
+  let full = format!("{did}{rel}");
+  eval_parse(ctx, did, l);
+  eval_parse(ctx, &full, l);
+  l.evals += 1;
+  let rejected = |key: &str, what: String| {
+    ctx.violation(key, &what, case);
+  };
+  if !matches!(guard(|| CoreDID::parse(did)), Ok(Ok(_))) {
+    rejected("CoreDID::parse|rejected|documented-example", format!("{did:?}"));
+  }
+  if !matches!(guard(|| DIDUrl::parse(&full)), Ok(Ok(_))) {
+    rejected("DIDUrl::parse|rejected|documented-example", format!("{full:?}"));
+  }
+  let (p, q, f) = split_rel(rel);
+  if let Ok(Ok(base)) = guard(|| DIDUrl::parse(did)) {
+    if !rel.is_empty() && !matches!(guard(|| base.join(rel)), Ok(Ok(_))) {
+      rejected("DIDUrl::join|rejected|documented-example", format!("{did:?}.join({rel:?})"));
+    }
+    let mut u = base.clone();
+    if !p.is_empty() && !matches!(guard(|| u.set_path(Some(p))), Ok(Ok(()))) {
+      rejected("DIDUrl::set_path|rejected|documented-example", format!("set_path({p:?})"));
+    }
+    for q in q.iter().flat_map(|q| [q.to_string(), format!("?{q}")]) {
+      if !matches!(guard(|| u.set_query(Some(&q))), Ok(Ok(()))) {
+        rejected("DIDUrl::set_query|rejected|documented-example", format!("set_query({q:?})"));
+      }
+    }
+    for f in f.iter().flat_map(|f| [f.to_string(), format!("#{f}")]) {
+      if !matches!(guard(|| u.set_fragment(Some(&f))), Ok(Ok(()))) {
+        rejected("DIDUrl::set_fragment|rejected|documented-example", format!("set_fragment({f:?})"));
+      }
+    }
+  }
+  l.outcome("documented example");
+  l.distinct(&(7u8, did, rel));
 }
 
 fn eval(ctx: &Ctx, case: &Case) {
@@ -856,6 +1222,8 @@ fn eval_local(ctx: &Ctx, case: &Case, l: &mut Local) {
   match case {
     Case::Parse { s } => eval_parse(ctx, s, l),
     Case::Op { base, op, arg } => eval_op(ctx, base, op, arg.as_deref(), l),
+    Case::Seq { base, steps } => eval_seq(ctx, base, steps, case, l),
+    Case::Doc { did, rel } => eval_doc(ctx, did, rel, case, l),
     Case::Jwk { s } => eval_jwk(ctx, s, l),
     Case::Pair { a, b } => {
       if let (Ok(Ok(x)), Ok(Ok(y))) = (guard(|| DIDUrl::parse(a)), guard(|| DIDUrl::parse(b))) {
@@ -953,7 +1321,9 @@ fn run_tree(ctx: &Ctx, part: &str, sigma: &'static [&'static str], heads: &[&str
 fn run_token_ops(ctx: &Ctx, n: u32) {
   let size = tree_size(TOKENS.len(), n);
   let mut table: Vec<(&'static str, Op, &'static str)> = Vec::new();
-  for base in ["did:m:x", "did:m:x/p?q#f"] {
+  // the last two: every component ends in a %HH triplet directly before the next delimiter (the shape the
+  // external parser, which `join` still goes through, mis-splits); a query and a fragment made of delimiters
+  for base in ["did:m:x", "did:m:x/p?q#f", "did:m:%41x/%2F?%41#%41", "did:m:x/??/#/?"] {
     for d in ["/", "?", "#"] {
       table.push((base, Op::Join, d));
     }
@@ -966,6 +1336,9 @@ fn run_token_ops(ctx: &Ctx, n: u32) {
   for base in ["did:m:x", "did:m:x:y"] {
     for op in [Op::SetMethodName, Op::SetMethodId] {
       table.push((base, op, ""));
+    }
+    for d in ["/", "?", "#"] {
+      table.push((base, Op::DidJoin, d));
     }
   }
   let total = size * table.len() as u64;
@@ -990,7 +1363,110 @@ fn run_token_ops(ctx: &Ctx, n: u32) {
   ctx.add_states(total);
   ctx.add_transitions(total);
   ctx.add_traces(total);
-  ctx.part("token sequences as arguments of join / set_* (2 bases) and set_method_* (2 bases)", json!({"engine": "E1 full product", "tokens": TOKENS, "max_tokens": n, "rows(base,op,prefix)": table.len(), "cases": total}));
+  ctx.part("token sequences as arguments of join / set_* (4 bases) and set_method_* / DID::join (2 bases)", json!({"engine": "E1 full product", "tokens": TOKENS, "max_tokens": n, "rows(base,op,prefix)": table.len(), "cases": total}));
+}
+
+/// Every ASCII character, plus non-ASCII ones that `char::is_alphanumeric` / `is_numeric` / `is_whitespace`
+/// style predicates (as opposed to the `is_ascii_*` ones) would let through.
+fn char_table() -> Vec<String> {
+  let mut v: Vec<String> = (0u8..128).map(|b| (b as char).to_string()).collect();
+  v.extend(["\u{80}", "\u{85}", "\u{a0}", "é", "ß", "\u{2028}", "\u{feff}", "€", "😀", "ａ", "１", "٣"].iter().map(|s| s.to_string()));
+  v
+}
+
+/// Parse cases `pre ‖ w ‖ post` for every template (pre, post) and every word w of ≤ n symbols over `sigma`.
+fn run_fill(ctx: &Ctx, part: &str, sigma: &[&str], templates: &[(&str, &str)], n: u32) {
+  let size = tree_size(sigma.len(), n);
+  let total = size * templates.len() as u64;
+  let make = |idx: u64| {
+    let (pre, post) = templates[(idx / size) as usize];
+    let mut s = String::with_capacity(pre.len() + post.len() + 4 * n as usize);
+    s.push_str(pre);
+    tree_string(sigma, idx % size, &mut s);
+    s.push_str(post);
+    s
+  };
+  (0..total)
+    .into_par_iter()
+    .fold(Local::default, |mut l, idx| {
+      eval_parse(ctx, &make(idx), &mut l);
+      l
+    })
+    .for_each(|l| l.merge(ctx));
+  for idx in [0, total / 3, total / 2, total - 1] {
+    ctx.sample(part, &Case::Parse { s: make(idx) });
+  }
+  ctx.add_states(total);
+  ctx.add_transitions(total);
+  ctx.add_traces(total);
+  ctx.part(part, json!({"engine": "E1 full product", "symbols": sigma.len(), "templates(pre,post)": templates, "max_fill_symbols": n, "strings": total}));
+}
+
+/// Op cases `base.op(pre ‖ w ‖ post)` for every row (base, op, pre, post) and every word w of ≤ n symbols.
+fn run_fill_ops(ctx: &Ctx, part: &str, sigma: &[&str], rows: &[(&str, Op, &str, &str)], n: u32) {
+  let size = tree_size(sigma.len(), n);
+  let total = size * rows.len() as u64;
+  let make = |idx: u64| {
+    let (base, op, pre, post) = &rows[(idx / size) as usize];
+    let mut a = String::from(*pre);
+    tree_string(sigma, idx % size, &mut a);
+    a.push_str(post);
+    (*base, op.clone(), a)
+  };
+  (0..total)
+    .into_par_iter()
+    .fold(Local::default, |mut l, idx| {
+      let (base, op, a) = make(idx);
+      eval_op(ctx, base, &op, Some(&a), &mut l);
+      l
+    })
+    .for_each(|l| l.merge(ctx));
+  for idx in [0, total / 3, total / 2, total - 1] {
+    let (base, op, a) = make(idx);
+    ctx.sample(part, &Case::Op { base: base.into(), op, arg: Some(a) });
+  }
+  ctx.add_states(total);
+  ctx.add_transitions(total);
+  ctx.add_traces(total);
+  let rows_shown: Vec<String> = rows.iter().map(|(b, o, pre, post)| format!("{b} {o:?} {pre:?}+w+{post:?}")).collect();
+  ctx.part(part, json!({"engine": "E1 full product", "symbols": sigma.len(), "rows": rows_shown, "max_fill_symbols": n, "cases": total}));
+}
+
+/// Every sequence of 1..=depth steps over `choices`, from every base; each step judged on the real value.
+fn run_seqs(ctx: &Ctx, part: &str, bases: &[&str], choices: &[(Op, Option<&str>)], depth: u32) {
+  let c = choices.len() as u64;
+  // sequences of exactly `depth` steps: every shorter history is a prefix of one of them and is judged on the way
+  let per_base = c.pow(depth);
+  let total = per_base * bases.len() as u64;
+  let make = |idx: u64| {
+    let base = bases[(idx / per_base) as usize];
+    let mut i = idx % per_base;
+    let mut steps = Vec::with_capacity(depth as usize);
+    for _ in 0..depth {
+      let (op, arg) = &choices[(i % c) as usize];
+      steps.push((op.clone(), arg.map(str::to_owned)));
+      i /= c;
+    }
+    Case::Seq { base: base.to_owned(), steps }
+  };
+  (0..total)
+    .into_par_iter()
+    .fold(Local::default, |mut l, idx| {
+      let case = make(idx);
+      eval_local(ctx, &case, &mut l);
+      l
+    })
+    .for_each(|l| l.merge(ctx));
+  for idx in [0, total / 3, total / 2, total - 1] {
+    ctx.sample(part, &make(idx));
+  }
+  // states = distinct histories (prefix tree), transitions = steps executed
+  let nodes: u64 = (0..=depth).map(|k| c.pow(k)).sum::<u64>() * bases.len() as u64;
+  ctx.add_states(nodes);
+  ctx.add_transitions(total * depth as u64);
+  ctx.add_traces(total);
+  let shown: Vec<String> = choices.iter().map(|(o, a)| format!("{o:?}({a:?})")).collect();
+  ctx.part(part, json!({"engine": "E1 full product of step sequences", "bases": bases, "step_choices": shown, "steps": depth, "sequences": total}));
 }
 
 fn run_list(ctx: &Ctx, part: &str, cases: &[Case]) {
@@ -1033,9 +1509,10 @@ const JWK_DOCS: [&str; 9] = [
 ];
 
 fn generate(ctx: &Ctx) {
-  ctx.rule("every string of the stated grids is executed on all entry points; distinct_nontrivial = distinct inputs that the reference grammar accepts or that at least one entry point accepts/panics on (trivial = grammar-invalid and rejected everywhere), plus distinct (base, op, argument) with an accepted op, plus distinct pool pairs");
+  ctx.rule("every string of the stated grids is executed on all entry points; distinct_nontrivial = distinct inputs that the reference grammar accepts or that at least one entry point accepts/panics on (trivial = grammar-invalid and rejected everywhere), plus distinct (base, op sequence) with at least one accepted op, plus distinct pool pairs, plus documented examples");
   ctx.assume("serde_json and std string handling are trusted; the reference recogniser is written from did-core §3.1/§3.2 and RFC 3986 and is the trusted base of this check");
-  ctx.assume("liveness (well-formed input must be accepted) is recorded in the histogram only; the statement is judged in the safety direction");
+  ctx.assume("acceptance of well-formed input by the parsers is recorded in the histogram only (the statement is judged in the safety direction), except where the statement or the public documentation is explicit: the string form of a value produced by an accepted join / setter must re-parse, and the DIDs, DID URLs, relative references and setter arguments shown as valid in the documentation of identity_did must be accepted");
+  ctx.assume("the effect of an accepted join / set_* on the components it does not address, the leading-delimiter rule of join and the read-back of set components are judged against the doc comments of DIDUrl::join and RelativeDIDUrl::set_*; whether join resolves dot segments is left open");
   let n = ctx.by_tier(5u32, 6u32);
   // (a) main prefix tree
   run_tree(ctx, "tree did:m:", &SIGMA, &["did:m:"], n);
@@ -1045,6 +1522,71 @@ fn generate(ctx: &Ctx) {
   let nt = ctx.by_tier(3u32, 4u32);
   run_tree(ctx, "token tree did:m:x", &TOKENS, &["did:m:x", "did:m:", "did:m:%41/", "did:m:%41?", "did:m:%41#", "did:m:x/p?q#"], nt);
   run_token_ops(ctx, nt);
+  // character classes: every ASCII character (and non-ASCII letters / digits / spaces), alone and in pairs, at
+  // every position class of every component
+  let chars = char_table();
+  let chars: Vec<&str> = chars.iter().map(|s| s.as_str()).collect();
+  let templates: [(&str, &str); 36] = [
+    ("did:", ":a"), ("did:m", ":a"), ("did:", "m:a"),
+    ("did:m:", ""), ("did:m:a", ""), ("did:m:", "a"), ("did:m:a", "b"), ("did:m:a:", ""), ("did:m:%41", ""), ("did:m:%41", "a"), ("did:m:%", ""), ("did:m:%", "a"), ("did:m:a%", "/p"),
+    ("did:m:a/", ""), ("did:m:a/", "b"), ("did:m:a/b", "?q#f"), ("did:m:a/%41", ""), ("did:m:a/%", ""), ("did:m:a/%", "b"),
+    ("did:m:a?", ""), ("did:m:a?", "b"), ("did:m:a/p?q", "#f"), ("did:m:a?%41", ""), ("did:m:a?%", ""), ("did:m:a?%", "b#f"),
+    ("did:m:a#", ""), ("did:m:a#", "b"), ("did:m:a/p?q#f", ""), ("did:m:a#%41", ""), ("did:m:a#%", ""), ("did:m:a#%", "b"),
+    ("", "did:m:a"), ("d", "d:m:a"), ("did", "m:a"), ("did:m", "a"), ("", ":m:a"),
+  ];
+  run_fill(ctx, "character table: all 1- and 2-character fills of 36 component templates", &chars, &templates, 2);
+  if ctx.thorough() {
+    let bare: [(&str, &str); 8] = [("did:", ":a"), ("did:m:", ""), ("did:m:a", "b"), ("did:m:a/", ""), ("did:m:a?", ""), ("did:m:a#", ""), ("did:m:a/p?q", "#f"), ("did:m:%", "/p")];
+    run_fill(ctx, "character table: all 3-character fills of 8 component templates", &chars, &bare, 3);
+  }
+  let op_rows: Vec<(&str, Op, &str, &str)> = vec![
+    ("did:m:x/p?q#f", Op::Join, "", ""), ("did:m:x/p?q#f", Op::Join, "/", ""), ("did:m:x/p?q#f", Op::Join, "?", ""), ("did:m:x/p?q#f", Op::Join, "#", ""),
+    ("did:m:x/p?q#f", Op::Join, "/%", ""), ("did:m:x/p?q#f", Op::Join, "?%", ""), ("did:m:x/p?q#f", Op::Join, "#%", ""), ("did:m:x/p?q#f", Op::Join, "/a", "?b#c"), ("did:m:x", Op::Join, "/a?b", "#c"),
+    ("did:m:x/p?q#f", Op::SetPath, "", ""), ("did:m:x/p?q#f", Op::SetPath, "/", ""), ("did:m:x/p?q#f", Op::SetPath, "/%", ""), ("did:m:x", Op::SetPath, "/a", "b"),
+    ("did:m:x/p?q#f", Op::SetQuery, "", ""), ("did:m:x/p?q#f", Op::SetQuery, "?", ""), ("did:m:x/p?q#f", Op::SetQuery, "%", ""), ("did:m:x", Op::SetQuery, "a", "b"),
+    ("did:m:x/p?q#f", Op::SetFragment, "", ""), ("did:m:x/p?q#f", Op::SetFragment, "#", ""), ("did:m:x/p?q#f", Op::SetFragment, "%", ""), ("did:m:x", Op::SetFragment, "a", "b"),
+    ("did:m:x", Op::SetMethodName, "", ""), ("did:m:x", Op::SetMethodName, "a", ""), ("did:m:x", Op::SetMethodName, "", "a"),
+    ("did:m:x", Op::SetMethodId, "", ""), ("did:m:x", Op::SetMethodId, "a", ""), ("did:m:x", Op::SetMethodId, "", "a"), ("did:m:x", Op::SetMethodId, "%", ""), ("did:m:x", Op::SetMethodId, "%41", ""), ("did:m:x", Op::SetMethodId, "a:", ""),
+    ("did:m:x", Op::DidJoin, "", ""), ("did:m:x", Op::DidJoin, "#", ""), ("did:m:x", Op::DidJoin, "/", ""),
+  ];
+  run_fill_ops(ctx, "character table: all 1- and 2-character fills of 33 operation-argument templates", &chars, &op_rows, 2);
+  // multi-step histories: every sequence of operations over a menu of accepted / rejected / clearing arguments
+  let url_menu: Vec<(Op, Option<&str>)> = vec![
+    (Op::Join, Some("/a")), (Op::Join, Some("/b/c")), (Op::Join, Some("?q")), (Op::Join, Some("?")), (Op::Join, Some("#f")), (Op::Join, Some("#")), (Op::Join, Some("/a?q#f")), (Op::Join, Some("?q#f")),
+    (Op::Join, Some("/%41")), (Op::Join, Some("?%41")), (Op::Join, Some("#%41")), (Op::Join, Some("")), (Op::Join, Some("x")), (Op::Join, Some("/{")),
+    (Op::SetPath, None), (Op::SetPath, Some("")), (Op::SetPath, Some("/")), (Op::SetPath, Some("/a")), (Op::SetPath, Some("/%41")), (Op::SetPath, Some("a")), (Op::SetPath, Some("/a?")),
+    (Op::SetQuery, None), (Op::SetQuery, Some("")), (Op::SetQuery, Some("?")), (Op::SetQuery, Some("q")), (Op::SetQuery, Some("?q")), (Op::SetQuery, Some("??")), (Op::SetQuery, Some("%41")), (Op::SetQuery, Some("q#")),
+    (Op::SetFragment, None), (Op::SetFragment, Some("")), (Op::SetFragment, Some("#")), (Op::SetFragment, Some("f")), (Op::SetFragment, Some("#f")), (Op::SetFragment, Some("%41")), (Op::SetFragment, Some("f#")), (Op::SetFragment, Some("a/b?c")),
+  ];
+  let seq_depth = ctx.by_tier(3u32, 4u32);
+  run_seqs(ctx, "operation sequences on a DID URL", &["did:m:x", "did:m:x/p?q#f", "did:m:%41x/%41?%41#%41", "did:m:x??#?"], &url_menu, seq_depth);
+  let did_menu: Vec<(Op, Option<&str>)> = vec![
+    (Op::SetMethodName, Some("a")), (Op::SetMethodName, Some("ab")), (Op::SetMethodName, Some("1")), (Op::SetMethodName, Some("")), (Op::SetMethodName, Some("A")), (Op::SetMethodName, Some("a:b")),
+    (Op::SetMethodId, Some("a")), (Op::SetMethodId, Some("a:b")), (Op::SetMethodId, Some(":a")), (Op::SetMethodId, Some("a:")), (Op::SetMethodId, Some("%41a")), (Op::SetMethodId, Some("%41")), (Op::SetMethodId, Some("")),
+    (Op::SetMethodId, Some("a/b")), (Op::SetMethodId, Some("::")), (Op::SetMethodId, Some("a%41:b")),
+    (Op::DidJoin, Some("/p")), (Op::DidJoin, Some("#f")), (Op::DidJoin, Some("?q#f")), (Op::DidJoin, Some("x")), (Op::DidJoin, Some("")),
+    (Op::SetFragment, Some("g")), (Op::Join, Some("?r")),
+  ];
+  run_seqs(ctx, "operation sequences on a plain DID (set_method_*, then DID::join, then DID URL operations)", &["did:m:x", "did:example:a:b%41c"], &did_menu, seq_depth);
+  // documented examples (liveness)
+  let docs: Vec<Case> = [
+    ("did:iota:H3C2AVvLMv6gmMNam3uVAjZar3cJCwDwnZn6z3wXmqPV", "/path?query1=a&query2=b#fragment"),
+    ("did:example:12345678", ""),
+    ("did:iota:main:12345678", ""),
+    ("did:example:12345678", "/path?query#fragment"),
+    ("did:example:12345678", "/path"),
+    ("did:example:12345678", "?query"),
+    ("did:example:12345678", "#fragment"),
+    ("did:example:12345678", "/path/sub-path/resource"),
+    ("did:example:12345678", "?query1=a"),
+    ("did:example:12345678", "?query1=a&query2=b"),
+    ("did:example:12345678", "#fragment1"),
+    ("did:example:12345678", "#fragment2"),
+  ]
+  .iter()
+  .map(|(d, r)| Case::Doc { did: d.to_string(), rel: r.to_string() })
+  .collect();
+  run_list(ctx, "documented examples", &docs);
   // (b) leading whitespace / control / non-ASCII space, and perturbed heads
   let lead: Vec<String> = [" ", "\n", "\t", "\r", "\u{0}", "\u{1f}", "\u{7f}", "\u{a0}", "\u{feff}", "  ", "\r\n", " \n\t "].iter().map(|w| format!("{w}did:m:")).collect();
   let lead_ref: Vec<&str> = lead.iter().map(|s| s.as_str()).collect();
@@ -1113,8 +1655,8 @@ fn generate(ctx: &Ctx) {
   // (e) Eq / Ord / Hash on a pool of accepted, well-formed DID URLs
   let dids: &[&str] = ctx.by_tier(&["did:a:1", "did:a:2", "did:b:1", "did:a:1:2"][..], &["did:a:1", "did:a:2", "did:b:1", "did:a:1:2", "did:a:A", "did:a:%41a", "did:ab:1", "did:a:1.2"][..]);
   let paths = ["", "/", "/a", "/b", "/a/b"];
-  let queries: &[&str] = ctx.by_tier(&["", "?a", "?b"][..], &["", "?a", "?b", "?a=1", "?/"][..]);
-  let frags = ["", "#a", "#b"];
+  let queries: &[&str] = ctx.by_tier(&["", "?a", "?b", "??"][..], &["", "?a", "?b", "??", "?a=1", "?/"][..]);
+  let frags = ["", "#a", "#b", "#/?"];
   let mut pool_s: Vec<String> = Vec::new();
   for d in dids {
     for p in paths {
@@ -1209,6 +1751,8 @@ fn generate(ctx: &Ctx) {
   ctx.bound("op_argument_max_symbols", k);
   ctx.bound("method_setter_argument_max_symbols", k + 1);
   ctx.bound("comparison_pool", np);
+  ctx.bound("character_table", "all 128 ASCII characters + 12 non-ASCII letters/digits/spaces; fills of 1 and 2 characters (3 in thorough on 8 templates)");
+  ctx.bound("operation_sequence_steps", seq_depth);
 }
 
 fn main() {
